@@ -30,13 +30,101 @@ def node_cls(E):
     return objs.cls_of(E, "trie.typing", "HexaryTrieNode")
 
 
+subsegs = z3.Function("subsegs", HNode, SeqSeqI)      # opaque; its definition is subsegs_body (revealed where needed)
+
+
 def subsegs_of(E, D):
-    """spec: the sub-segments of node D as a sequence of nibble tuples"""
+    """spec: the sub-segments of node D as a tuple of nibble tuples (opaque term)"""
+    return subsegs(D)
+
+
+def reveal_subsegs(E, D):
+    E.assume(SBool(subsegs(D) == subsegs_body(E, D)))       # definition; not simplified (z3 would hoist 16 conditions)
+
+
+def subsegs_body(E, D):
+    """definition of subsegs(D)"""
     br = []
     for i in range(16):
         br.append(z3.If(z3.Not(HRef.is_RBlank(HM.child(D, i))), z3.Unit(z3.Unit(z3.IntVal(i))), z3.Empty(SeqSeqI)))
     return z3.If(HNode.is_HBranch(D), z3.Concat(*br),
                  z3.If(HNode.is_HExt(D), z3.Unit(HNode.epath(D)), z3.Empty(SeqSeqI)))
+
+
+def first_child(E, D):
+    """(index, reference) of the first occupied child slot of a branch"""
+    idx, ref = z3.IntVal(15), HM.child(D, 15)
+    for i in reversed(range(15)):
+        occ = z3.Not(HRef.is_RBlank(HM.child(D, i)))
+        idx = z3.If(occ, z3.IntVal(i), idx)
+        ref = z3.If(occ, HM.child(D, i), ref)
+    return idx, ref
+
+
+def any_child(D):
+    return z3.Or(*[z3.Not(HRef.is_RBlank(HM.child(D, i))) for i in range(16)])
+
+
+def first_child_facts(E, D, k=None):
+    """consequences of the definitions of first_child / subsegs_of / child_at at D (lemma first_child, proved once
+    for an arbitrary node): the first occupied slot is a slot, its reference is occupied, it is what child_at selects,
+    and the annotation's first sub-segment is that nibble (the extension path for an extension)"""
+    fi, fr = first_child(E, D)
+    ss = subsegs_of(E, D)
+    out = [z3.And(fi >= 0, fi <= 15),
+           z3.Implies(any_child(D), z3.And(HC.child_at(D, fi) == fr, z3.Not(HRef.is_RBlank(fr)))),
+           z3.Implies(HNode.is_HExt(D), z3.And(z3.Length(ss) == 1, ss[0] == HNode.epath(D))),
+           z3.Implies(z3.And(HNode.is_HBranch(D), any_child(D)), z3.PrefixOf(z3.Unit(z3.Unit(fi)), ss)),
+           z3.Implies(HNode.is_HBranch(D), (z3.Length(ss) == 0) == z3.Not(any_child(D))),
+           z3.Implies(z3.Or(HNode.is_HBlank(D), HNode.is_HLeaf(D)), z3.Length(ss) == 0)]
+    return out
+
+
+def lemma_first_child(E):
+    D = z3.Const("D", HNode)
+    reveal_subsegs(E, D)
+    HC.reveal_child_at(E, D, first_child(E, D)[0])
+    facts = first_child_facts(E, D)
+    # fact 3 (the first sub-segment of a branch) and fact 4 (no sub-segment iff no child), by a chain over the suffixes
+    # S_i = [ (i,) if slot i occupied ] ++ ... ++ [ (15,) if slot 15 occupied ] of the sub-segment tuple of a branch:
+    #   P_i:  no occupied slot in i..15  =>  S_i = ()      and
+    #         some occupied slot in i..15 =>  S_i starts with (first occupied slot >= i,)
+    # P_16 is trivial; P_i follows from P_{i+1} by one case split on slot i.
+    occ = [z3.Not(HRef.is_RBlank(HM.child(D, i))) for i in range(16)]
+    unit = [z3.Unit(z3.Unit(z3.IntVal(i))) for i in range(16)]
+    S = z3.Const("S16", SeqSeqI)                 # the suffixes are named (fresh constants defined by an equation),
+    E.assume(mk_bool(S == z3.Empty(SeqSeqI)))    # so that each step sees its predecessor as an atom
+    first = z3.Const("first16", z3.IntSort())
+    E.assume(mk_bool(first == 15))
+    some = z3.Const("some16", z3.BoolSort())
+    E.assume(mk_bool(some == z3.BoolVal(False)))
+    for i in reversed(range(16)):
+        S2, f2, s2 = z3.Const("S%d" % i, SeqSeqI), z3.Const("first%d" % i, z3.IntSort()), z3.Const("some%d" % i, z3.BoolSort())
+        E.assume(mk_bool(S2 == z3.Concat(z3.If(occ[i], unit[i], z3.Empty(SeqSeqI)), S)))
+        E.assume(mk_bool(f2 == z3.If(occ[i], z3.IntVal(i), first)))
+        E.assume(mk_bool(s2 == z3.Or(occ[i], some)))
+        S, first, some = S2, f2, s2
+        E.prove("first_child/chain%d" % i,
+                mk_bool(z3.And(z3.Implies(z3.Not(some), S == z3.Empty(SeqSeqI)),
+                               z3.Implies(some, z3.PrefixOf(z3.Unit(z3.Unit(first)), S)))), kind="lemma")
+    br = z3.Concat(*[z3.If(occ[i], unit[i], z3.Empty(SeqSeqI)) for i in range(16)])
+    E.prove("first_child/chain-is-the-branch-tuple", SBool(S == br), kind="lemma")     # not simplified (ite hoisting)
+    E.prove("first_child/branch-tuple-is-subsegs", SBool(z3.Implies(HNode.is_HBranch(D), subsegs(D) == br)), kind="lemma")
+    fi, fr = first_child(E, D)
+    E.prove("first_child/chain-first-is-first_child", mk_bool(first == fi), kind="lemma")
+    for n, f in enumerate(facts):
+        E.prove("first_child/%d" % n, SBool(f), kind="lemma")
+
+
+def lemma_prefix_first(E):
+    """a tuple of tuples that starts with the one-element tuple (x,) is not empty and has x as its first element"""
+    s_ = z3.Const("s", SeqSeqI)
+    x = z3.Const("x", SeqI)
+    E.prove("prefix_first", SBool(prefix_first_fact(x, s_)), kind="lemma")
+
+
+def prefix_first_fact(x, s_):
+    return z3.Implies(z3.PrefixOf(z3.Unit(x), s_), z3.And(z3.Length(s_) >= 1, s_[0] == x))
 
 
 def value_of(D):
@@ -57,8 +145,13 @@ def annotation_clauses(E, a, D, raw=None):
         return [("is-a-HexaryTrieNode", False)]
     f = a.fields
     out = []
+    if E.unit is not None and E.unit.endswith(":annotate_node"):
+        reveal_subsegs(E, D)          # only the unit that checks annotate_node itself looks at the definition
+    elif HM.is_constructor(z3.simplify(D)) and z3.simplify(D).decl().name() in ("HLeaf", "HExt", "HBlank"):
+        # a node built on this path (the simulated node of a partial traversal): the definition collapses
+        E.assume(SBool(subsegs(D) == z3.simplify(subsegs_body(E, z3.simplify(D)))))
     try:
-        out.append(("sub-segments", mk_bool(ops.seq_term(f["sub_segments"]) == subsegs_of(E, D))
+        out.append(("sub-segments", SBool(ops.seq_term(f["sub_segments"]) == subsegs_of(E, D))
                     if not (isinstance(f["sub_segments"], tuple) and len(f["sub_segments"]) == 0)
                     else mk_bool(subsegs_of(E, D) == z3.Empty(SeqSeqI))))
         out.append(("value", mk_bool(HM.bytes_of(f["value"]) == value_of(D))))
@@ -81,7 +174,14 @@ def make_annotated(E, D, raw):
     """callee view of annotate_node(raw): a HexaryTrieNode whose fields are the spec functions of D"""
     o = Obj(node_cls(E))
     ss = E.fresh_seq("sub_segments", "tuple", "tuple")
-    E.assume(mk_bool(ss.t == subsegs_of(E, D)))
+    E.assume(SBool(ss.t == subsegs_of(E, D)))          # not simplified: z3 would hoist the 16 conditions
+    E.ghost.setdefault("annotated_subsegs", []).append((z3.simplify(D), ss.t))
+    for f in first_child_facts(E, D):          # instances of lemma first_child: length / first element of the tuple
+        E.assume(SBool(f))
+    fi, _fr = first_child(E, D)
+    E.assume(SBool(prefix_first_fact(z3.Unit(fi), subsegs(D))))          # instance of lemma prefix_first
+    from contracts.seqspec import allnib
+    E.assume(SBool(allnib(z3.Unit(fi)) == z3.And(fi >= 0, fi <= 15)))    # definition of allnib on a one-element tuple
     o.fields["sub_segments"] = ss
     o.fields["value"] = SSeq(z3.simplify(value_of(D)), "bytes")
     o.fields["suffix"] = SSeq(z3.simplify(suffix_of_node(D)), "tuple", "int", rng=(0, 15))
@@ -267,6 +367,9 @@ def root_node_cases(E, ctx):
 
 
 def register(reg):
+    from pyvc.unit import Lemma
+    reg.add_lemma("hexary_traverse", Lemma("lemma:first_child", ("C08", "C10"), lemma_first_child))
+    reg.add_lemma("hexary_traverse", Lemma("lemma:prefix_first", ("C08", "C10"), lemma_prefix_first))
     g = "hexary_traverse"
     reg.add(g, Contract(NODES + ":annotate_node", ["node_body"], annotate_cases, setup=annotate_setup, props=("C08",)))
     H = HEX + ":HexaryTrie."
